@@ -545,6 +545,8 @@ type applyTarget struct {
 	F cN   `inject:""`
 	G cT3  // untagged struct-typed field: must stay untouched as well
 	H cI1  // untagged interface-typed field
+	I cN   `inject:"-"` // whatever the tag's value is, the field is tagged
+	J cT1  `json:"j" inject:"-,"`
 }
 
 func buildScopes(c *injCase, chans map[string]string) ([]inject.Injector, scopeTable) {
@@ -617,7 +619,7 @@ func judgeInj(w *core.W, c *injCase) {
 				name string
 				t    reflect.Type
 				v    reflect.Value
-			}{{"A", tyT1, reflect.ValueOf(tgt.A)}, {"B", tyI1, reflect.ValueOf(&tgt.B).Elem()}, {"E", tyI2, reflect.ValueOf(&tgt.E).Elem()}, {"F", tyN, reflect.ValueOf(tgt.F)}}
+			}{{"A", tyT1, reflect.ValueOf(tgt.A)}, {"B", tyI1, reflect.ValueOf(&tgt.B).Elem()}, {"E", tyI2, reflect.ValueOf(&tgt.E).Elem()}, {"F", tyN, reflect.ValueOf(tgt.F)}, {"I", tyN, reflect.ValueOf(tgt.I)}, {"J", tyT1, reflect.ValueOf(tgt.J)}}
 			if pan != nil {
 				w.Violate("apply", c, fmt.Sprintf("%s: Apply panicked: %v", label, pan))
 				return false
